@@ -105,6 +105,8 @@ def compare(beh: list[dict], fields=FIELDS):
                     continue
                 pa, ob = _norm(a[f]), _norm(b[f])
                 if f == "g":
+                    if pa.get("u"):
+                        continue        # the specification leaves this gradient unspecified
                     ob = {k: ob[k] for k in ("none", "v") if k in ob}
                 if pa != ob:
                     return (i, f, h, pa, ob)
